@@ -743,6 +743,25 @@ func (s *dbscen) reopen() {
 	s.obs(2, s.db.GetState())
 }
 
+// toggleView creates a view or drops it if it exists
+func (s *dbscen) toggleView() {
+	v := 1 + s.rnd.Intn(NVW)
+	if _, ok := s.views[v]; ok {
+		if !s.admin("drop " + s.vname[v]) {
+			return
+		}
+		delete(s.views, v)
+		s.tr.Emit(vh.E("DbDropView", "v", v))
+	} else {
+		d := 1 + s.rnd.Intn(50)
+		if !s.admin("view " + s.vname[v] + " = tables where nrows is " + strconv.Itoa(d)) {
+			return
+		}
+		s.views[v] = d
+		s.tr.Emit(vh.E("DbView", "v", v, "d", d))
+	}
+}
+
 func (s *dbscen) step() {
 	r := s.rnd.Intn(100)
 	live := []int{}
@@ -794,35 +813,60 @@ func (s *dbscen) step() {
 	case r < 64 && len(live) > 0:
 		t := pick(live)
 		n := 1 + s.rnd.Intn(3)
+		// sometimes a persist (of a schema change elsewhere) happens while the
+		// transaction is open, so that it commits into a newer chain clock
+		straddle := s.rnd.Intn(3) == 0
+		var ut *db19.UpdateTran
 		if e := catch(func() {
-			ut := s.db.NewUpdateTran()
+			ut = s.db.NewUpdateTran()
 			for i := 0; i < n; i++ {
 				s.nextKey++
 				query.DoAction(nil, ut, "insert {k: "+strconv.Itoa(s.nextKey)+"} into "+s.tname[t])
 			}
-			ut.Commit()
 		}); e != nil {
 			s.tr.Emit(vh.E("DbCrash", "what", "insert", "msg", fmt.Sprint(e)))
+			s.dead = true
+			return
+		}
+		if straddle {
+			// a committed change of another table makes the info chain advance too
+			for _, o := range live {
+				if o != t {
+					if e := catch(func() {
+						ut2 := s.db.NewUpdateTran()
+						s.nextKey++
+						query.DoAction(nil, ut2, "insert {k: "+strconv.Itoa(s.nextKey)+"} into "+s.tname[o])
+						ut2.Commit()
+					}); e != nil {
+						s.tr.Emit(vh.E("DbCrash", "what", "insert", "msg", fmt.Sprint(e)))
+						s.dead = true
+						return
+					}
+					s.tabs[o].nr++
+					s.tr.Emit(vh.E("DbInsert", "t", o, "n", 1))
+					break
+				}
+			}
+			s.toggleView()
+			if !s.dead {
+				s.obs(0, s.db.GetState())
+				s.persist()
+			}
+			if s.dead {
+				return
+			}
+		}
+		if e := catch(func() { ut.Commit() }); e != nil {
+			s.tr.Emit(vh.E("DbCrash", "what", "commit", "msg", fmt.Sprint(e)))
 			s.dead = true
 			return
 		}
 		s.tabs[t].nr += n
 		s.tr.Emit(vh.E("DbInsert", "t", t, "n", n))
 	case r < 70:
-		v := 1 + s.rnd.Intn(NVW)
-		if _, ok := s.views[v]; ok {
-			if !s.admin("drop " + s.vname[v]) {
-				return
-			}
-			delete(s.views, v)
-			s.tr.Emit(vh.E("DbDropView", "v", v))
-		} else {
-			d := 1 + s.rnd.Intn(50)
-			if !s.admin("view " + s.vname[v] + " = tables where nrows is " + strconv.Itoa(d)) {
-				return
-			}
-			s.views[v] = d
-			s.tr.Emit(vh.E("DbView", "v", v, "d", d))
+		s.toggleView()
+		if s.dead {
+			return
 		}
 	case r < 92:
 		s.persist()
